@@ -14,13 +14,17 @@ EXTENDS ReaderObs, IOUtils
 
 Listed(name) == name \in DOMAIN IOEnv
 
-(* DEV_BUFFERED_EOF_NOCLOSE (C08, C04).  With end-of-stream closing disabled, when the data    *)
-(* (so far) ends inside a master that was requested as buffered, the iterator reports          *)
-(* UnexpectedEOF for that master (id present, no size) instead of returning None and resuming   *)
-(* later; the partially collected children are dropped.  buffer_master() is not resumable.      *)
-BufferedEofNoClose(cfg, e) ==
+(* DEV_BUFFERED_EOF_NOCLOSE (C08).  With end-of-stream closing disabled the iterator cannot tell  *)
+(* the end of the input from a pause of the source.  When the data (so far) ends inside a master  *)
+(* that was requested as buffered it returns None and keeps what it has read for a later call    *)
+(* (which is what C04 demands); if that was the end of the input, the buffered parse "ends        *)
+(* cleanly" like the unbuffered one but never hands out the started master and the children read *)
+(* so far, which the unbuffered parse does emit.  first: the first unbuffered item that is        *)
+(* missing from the buffered run.                                                                  *)
+BufferedEofNoClose(cfg, e, first) ==
   /\ ~cfg.eofClose /\ cfg.buffered # {}
-  /\ e.res = "err" /\ e.ekind = "eof" /\ e.has_id /\ e.id \in cfg.buffered /\ ~e.has_size /\ ~e.has_partial
+  /\ e.res = "none"
+  /\ first.kind = "start" /\ first.id \in cfg.buffered
 
 (* DEV_ASYNC_STRADDLE (C20) - repaired in /repo (fix: the async iterator took the end of the   *)
 (* bytes received so far for the end of the input); no longer listed in known_findings.txt, so  *)
